@@ -317,10 +317,15 @@ def readers_world(parsercls):
         return [('range', z3.And(fr.locals['_pos0'] <= c.pos, c.pos <= c.input.n)), ('bound', c.bound.S == fr.locals['_bound0'])]
     def havoc(it, fr):
         fr.locals['context'].pos = it.fresh_int('pos'); fr.locals['digits'] = AbsList()
-    w.loop(fi.key, 0, LoopSpec(invariant=inv, havoc=havoc, variant=lambda it, fr: fr.locals['context'].input.n - fr.locals['context'].pos, on_entry=on_entry))
+    import ast as _ast
+    def _names(st): return {n.id for n in _ast.walk(st) if isinstance(n, _ast.Name)}
+    def _calls(st): return {n.func.attr for n in _ast.walk(st) if isinstance(n, _ast.Call) and isinstance(n.func, _ast.Attribute)}
+    w.loop(fi.key, 0, LoopSpec(invariant=inv, havoc=havoc, variant=lambda it, fr: fr.locals['context'].input.n - fr.locals['context'].pos, on_entry=on_entry),
+           shape=lambda f, st: isinstance(st, _ast.While) and 'digits' in _names(st) and 'advance' in _calls(st) and 'append' in _calls(st))
     fi2 = source.get(FILE, 'DefaultParser._read_params_auto')
     def havoc2(it, fr): fr.locals['context'].pos = it.fresh_int('pos')
-    w.loop(fi2.key, 0, LoopSpec(invariant=inv, havoc=havoc2, variant=lambda it, fr: fr.locals['context'].input.n - fr.locals['context'].pos, on_entry=on_entry))
+    w.loop(fi2.key, 0, LoopSpec(invariant=inv, havoc=havoc2, variant=lambda it, fr: fr.locals['context'].input.n - fr.locals['context'].pos, on_entry=on_entry),
+           shape=lambda f, st: isinstance(st, _ast.While) and any(isinstance(n, _ast.Yield) for n in _ast.walk(st)) and 'context' in _names(st) | {a.arg for a in f.node.args.posonlyargs + f.node.args.args})
     fi3 = source.get(FILE, 'StandardParser._read_from_paren_open')
     def on_entry3(it, fr): on_entry(it, fr)
     def inv3(it, fr):
@@ -331,7 +336,8 @@ def readers_world(parsercls):
         fr.locals['depth'] = it.fresh_int('depth'); fr.locals['length'] = it.fresh_int('length')
         fr.locals['oper'] = OperTok2(it) if it.fork(it.fresh_bool('oper_found')) else None
         fr.locals['oper_pos'] = it.fresh_int('oper_pos') if fr.locals['oper'] is not None else None
-    w.loop(fi3.key, 0, LoopSpec(invariant=inv3, havoc=havoc3, variant=lambda it, fr: fr.locals['context'].input.n - fr.locals['context'].pos - fr.locals['length'] + 1, on_entry=on_entry3))
+    w.loop(fi3.key, 0, LoopSpec(invariant=inv3, havoc=havoc3, variant=lambda it, fr: fr.locals['context'].input.n - fr.locals['context'].pos - fr.locals['length'] + 1, on_entry=on_entry3),
+           shape=lambda f, st: isinstance(st, _ast.While) and isinstance(st.test, _ast.Name) and st.test.id == 'depth' and {'length', 'oper', 'oper_pos'} <= _names(st))
     return w
 
 class OperTok2(SymVal):
